@@ -294,6 +294,23 @@ def build(tier="quick", seed=0):
         name = f"C02.pack[timestamp, {nm}]"
         pack.add(Obligation(name, lambda tier, name=name, d=d: prove_paths(name, lambda: (pack_with_fresh_packer(it, pk, d).tree, dt_tree(d)), judge_tree), replay=lambda w: {"call": "c02_golden", "args": {}}, functions=FU, mode="representative timestamps (finite case analysis)"))
 
+    def th_pack_list_appended():
+        # elements put into a typed list IN PLACE (append / insert: the list is an ordinary list to the caller) go out in the wire form of the element type all the same
+        D = it.call(RD, ["c02/lists", [("datetime[]", "tl"), ("path[]", "pl"), ("net.ipaddress[]", "al"), ("string[]", "sl")]], {})
+        r = it.call(D, [], {"tl": [TS], "pl": ["/a"], "al": ["1.2.3.4"], "sl": ["x"], "_generated": GEN})
+        ts2 = _dt.datetime(2001, 2, 3, 4, 5, 6, 7, tzinfo=_dt.timezone.utc)
+        r.attrs["tl"].base.append(ts2)
+        r.attrs["pl"].base.append("/b/c")
+        r.attrs["al"].base.insert(0, "5.6.7.8")
+        r.attrs["sl"].base.append(b"bytes")
+        got = pack_with_fresh_packer(it, pk, r)
+        name_, h = ident(D)
+        want = W.record_tree(blob, name_, h, [W.arr(dt_tree(TS), dt_tree(ts2)), W.arr(W.arr(W.leaf("/a"), W.leaf(0)), W.arr(W.leaf("/b/c"), W.leaf(0))), W.arr(W.leaf(0x05060708), W.leaf(0x01020304)), W.arr(W.leaf("x"), W.leaf("bytes")),
+                                              W.leaf(None), W.leaf(None), dt_tree(GEN), W.leaf(1)])
+        return got.tree, want
+
+    pack.add(Obligation("C02.pack[typed lists with elements put in place (append / insert)]", lambda tier: prove_paths("C02.pack[typed lists in place]", th_pack_list_appended, judge_tree), replay=lambda w: {"call": "c02_list_in_place", "args": {}}, functions=FU + ("flow.record.fieldtypes:typedlist._pack",), mode="representative history"))
+
     def th_pack_descriptor_alias():
         # a definition is written with the type names it was declared with (the alias spellings are whitelisted names of their own)
         D = it.call(RD, ["c02/alias", [("wstring", "w"), ("string", "s"), ("net.IPAddress", "ip"), ("wstring[]", "wl")]], {})
